@@ -406,6 +406,19 @@ def _fp_to_bits(x64: typing.Any, bits: int, overflow_to_inf: bool) -> typing.Any
     return z3.simplify(z3.fpToIEEEBV(y))
 
 
+def _is_widened_from(x64: typing.Any, srt: typing.Any) -> bool:
+    """x64 is syntactically the exact widening of a value of sort srt (then narrowing it back is the identity)"""
+    return z3.is_app(x64) and x64.decl().kind() == z3.Z3_OP_FPA_TO_FP and x64.num_args() == 2 and z3.is_fp(x64.arg(1)) and x64.arg(1).sort() == srt
+
+
+def _narrow(x64: typing.Any, srt: typing.Any) -> typing.Any:
+    if srt == sym.F64:
+        return x64
+    if _is_widened_from(x64, srt):
+        return x64.arg(1)
+    return z3.fpFPToFP(sym.RNE, x64, srt)
+
+
 class StructShim:
     """struct.pack / struct.unpack for the three little-endian float formats used by nunavut_support"""
     error = Exception
@@ -422,12 +435,13 @@ class StructShim:
             x = sym.FloatProxy(x)
         if not isinstance(x, SymFloat):
             raise TypeError("required argument is not a float")
-        if bits < 64:
+        if bits < 64 and not _is_widened_from(x.z, srt):
             y = z3.fpFPToFP(sym.RNE, x.z, srt)
             overflow = sym.mk_bool(z3.And(z3.fpIsInf(y), z3.Not(z3.fpIsInf(x.z))))
             if builtins.bool(overflow):
                 raise OverflowError("float too large to pack with %s format" % fmt[1])
-        term = _fp_to_bits(x.z, bits, False)
+        y = _narrow(x.z, srt)
+        term = z3.simplify(z3.fpToIEEEBV(y))
         return SymBytes([_byte_cell(z3.Extract(8 * k + 7, 8 * k, term)) for k in range(bits // 8)])
 
     @staticmethod
@@ -439,7 +453,10 @@ class StructShim:
         if len(cells) != bits // 8:
             raise StructShim.error(f"unpack requires a buffer of {bits // 8} bytes")
         term = z3.simplify(z3.Concat(*[_bv(b, 8) for b in reversed(cells)]))
-        f = z3.fpBVToFP(term, srt)
+        if z3.is_app(term) and term.decl().kind() == z3.Z3_OP_FPA_TO_IEEE_BV and term.arg(0).sort() == srt:
+            f = term.arg(0)                 # the bytes are the encoding of a known value: decoding it gives that value (NaN payloads aside)
+        else:
+            f = z3.fpBVToFP(term, srt)
         return (SymFloat(f if bits == 64 else z3.fpFPToFP(sym.RNE, f, sym.F64)),)
 
 
